@@ -5,13 +5,13 @@
 #   ctx   = {'macros': [[name, argsp]...], 'envs': [[name, argsp, bodymath]...], 'specials': [[chars, argsp]...],
 #            'um': argsp|None, 'ue': [argsp, bodymath]|None}
 #   argsp = ['S', [spec...]] | ['LV'] | ['LE', name, optarg] | ['U', reason]
-#   spec  = [kind, delta] with kind in 'm', 'o1', 'o0', 's', 't<c>', 'r<o><c>', 'd<o><c>', 'v', 'V<o><c>'; delta in '', '+', '-'
+#   spec  = [kind, delta] with kind in 'm', 'm0' (expression, allow_pre_space=False), 'o1', 'o0', 's', 't<c>', 'r<o><c>', 'd<o><c>', 'v', 'V<o><c>'; delta in '', '+', '-'
 from common import wire
 
 def enc_spec(sp):
     kind, delta = sp
     k = kind[0]
-    if k in 'ms' or kind == 'v':
+    if kind in ('m', 'm0', 's', 'v'):
         body = kind
     elif k == 'o':
         body = kind
@@ -31,15 +31,6 @@ def enc_argsp(a):
     if a[0] == 'LE':
         return 'LE/%s/%d' % (wire(a[1]), 1 if a[2] else 0)
     return 'U'
-
-def has_unmodelled(ctx):
-    """argument kinds the Lean context type cannot express (oracle-only cases): 'm0' = expression without leading whitespace"""
-    if ctx == 'default':
-        return False
-    def bad(a):
-        return a is not None and a[0] == 'S' and any(sp[0] == 'm0' for sp in a[1])
-    return any(bad(a) for _, a in ctx['macros']) or any(bad(a) for _, a, _ in ctx['envs']) or \
-        any(bad(a) for _, a in ctx['specials']) or bad(ctx.get('um')) or (ctx.get('ue') is not None and bad(ctx['ue'][0]))
 
 def enc_ctx(ctx):
     if ctx == 'default':
